@@ -75,6 +75,11 @@ CHECKS = {
         text="G callers (2/16/128) share one real proxy (also: two communicators holding proxies for the same object) and call a scripted server that reads every request id with the reference codec and answers by script: in order, reversed or randomly permuted windows, duplicated x2/x5, late (1.5x timeout), dropped, plus responses for ids nobody waits for (far away, already completed at the client, not yet issued) and id-0 pushes. The response for id X carries the token of request X, so a returned foreign token is a misdelivery; ids seen on the wire must be non-zero and distinct among calls overlapping in time (interval join on a logical clock); the id counter is preset to MaxInt32-k to cross the wrap under load.",
         note="Only the interleavings that occur; the scripts make the dangerous ones common. The id-wrap batches need the verifmsgid hook and are skipped (and reported as such in the evidence) when it does not compile against the tree.",
         design="DESIGN.md §4 C08"),
+    "C09": dict(
+        technique="runtime monitor: monotonic call-boundary timing with replay-confirmed overruns, hook probes of in-flight counters and pending-reply tables, token check on a control batch, against fault-script peers",
+        text="Real ServantProxy callers (1/8/64, two-way and one-way, tcp and ssl endpoints) run against peers that refuse, black-hole (full accept backlog), accept and stay silent, read and stay silent, reply after 0.5/0.9/1.0(+-400us)/1.1/3x the deadline, close or reset at every point, send four kinds of garbage or never read 1 MiB requests; deadlines come from the proxy timeout, the per-call client timeout and the context deadline. A call must return within deadline + dial bound + 2 s (an overrun only counts when three isolated replays exceed it too), the in-flight counter, pending-reply tables and manager counter must return to their previous values, and after the peer heals a 20-call control batch must succeed with its own tokens.",
+        note="Inherently wall-clock; mitigated by the generous slack and replay confirmation. 'Never returns' is a bounded watchdog (bound + 30 s).",
+        design="DESIGN.md §4 C09"),
 }
 
 NOT_BUILT_REASON = "check not built yet in this session (runtime-monitoring design exists in DESIGN.md §4; machinery in progress) — not claimed until its monitor runs silent on the unchanged tree"
